@@ -647,7 +647,7 @@ def part_holstein(c, nb):
     from renormalizer.utils import Quantity
     rng, run = c.rng, c.run
     for _ in range(nb):
-        nmol = int(rng.choice([1, 2, 2, 3]))
+        nmol = int(rng.choice([1, 2, 2, 3, 3]))
         budget = 4 if nmol < 3 else 3
         mols = []
         for i in range(nmol):
@@ -663,9 +663,8 @@ def part_holstein(c, nb):
                 nl = int(rng.choice([2, 3]))
                 phs.append((w0, w1, d, nl))
             mols.append(dict(e=float(rng.choice([-0.7, 0.0, 0.9, 2.0])), phs=phs))
-        jmode = str(rng.choice(["quantity", "quantity-periodic", "matrix", "matrix-asym"]))
-        if jmode == "quantity-periodic" and nmol < 3:
-            jmode = "quantity"
+        jmode = str(rng.choice(["quantity", "matrix", "matrix-asym"] if nmol < 3 else
+                               ["quantity", "quantity-periodic", "quantity-periodic", "matrix", "matrix-asym"]))
         jc = float(rng.choice([-0.6, 0.3, 1.1]))
         if jmode.startswith("quantity"):
             J = np.zeros((nmol, nmol))
